@@ -139,6 +139,7 @@ func TestC07Random(t *testing.T) {
 	})
 	rapid.Check(t, func(t *rapid.T) {
 		ops := rapid.SliceOfN(opGen, 1, maxOps).Draw(t, "ops")
+		ops = model.Maintain(t, ops, func(id string) int { return typeOf[id] }, "S")
 		var pre []model.Op
 		if d := rapid.SampledFrom([]int{0, 0, 1, 2, 3}).Draw(t, "brokerOptions"); d != 0 {
 			pre = []model.Op{{K: "newbroker", V: d}}
